@@ -920,7 +920,7 @@ func trunc(s []string, n int) []string {
 
 func cases(tier string, seed int64) []fw.Case {
 	var cs []fw.Case
-	n, blocks, fb := 24, 260, 10
+	n, blocks, fb := 64, 300, 12
 	if tier == "thorough" {
 		n, blocks, fb = 192, 520, 50
 	}
